@@ -11,7 +11,7 @@ import (
 )
 
 func TestC13(t *testing.T) {
-	quick, thor := 110*time.Second, 18*time.Minute
+	quick, thor := 130*time.Second, 18*time.Minute
 	// Development aid on a loaded machine: C13_TIME=<seconds> replaces the
 	// tier's wall budget (the registered command never sets it).
 	if s, err := strconv.Atoi(os.Getenv("C13_TIME")); err == nil && s > 0 {
@@ -20,7 +20,7 @@ func TestC13(t *testing.T) {
 	nrun.Main(t, &nrun.Check{
 		ID: "C13", TestName: "TestC13", Plans: xscen.Plans(),
 		QuickTime: quick, ThorTime: thor,
-		Rule:   "engine N. (1) Nine hand-written base workloads (idempotent producer to 2 brokers + unknown topic; direct consumer of a pre-loaded 2-partition topic; the same with MaxConcurrentFetches(1); cooperative group consumer with a second member joining; the same with BlockRebalanceOnPoll closed by CloseAllowingRebalance; the same with the eager range balancer; the same on the KIP-848 protocol; transactional producer ending mid-transaction; share-group consumer holding un-acked records) x three broker modes from the Close call on (responsive; every connection old and new stalled: accepts bytes, never answers; every connection dead and every dial refused). Close is called by a separate goroutine at EVERY decision point of the base execution (one deviation = release of the ARM selector after j of n skips: Close is called exactly when j request/response frames and application steps have fired, j=0..n, n >= length of the base execution, default = after the workload finished); with budget 2 additionally one deviation anywhere after the selector (another enabled frame first, timer tick first, connection killed before/after the broker handled a request, connection stalled). (2) Generated family XG (cost-0 choices, every combination executed): 19 client configurations (producer plain / linger / MaxBufferedRecords(1) / both; transactional; direct consumer with MaxConcurrentFetches -1, 0, 1; group consumer eager, cooperative, KIP-848, autocommit off, BlockRebalanceOnPoll, 2 s rebalance callbacks that commit, second member joining; share group) x every application script of length <= 2 (thorough <= 3) over the API alphabet of the configuration (Produce, Produce to an unknown topic, ProduceSync, Flush, EndTransaction commit/abort, PollFetches, CommitUncommittedOffsets, AllowRebalance, ack+FlushAcks, think time) x the call during which the shutdown thread starts x the virtual delay before it shuts down (0 / 1.2 s; thorough 0 / 600 ms / 3 s) x cluster state applied at that moment (healthy, all connections stalled, all connections dead and dials refused, coordinator loading) x shutdown form (Close or CloseAllowingRebalance; LeaveGroup then Close; cancel the application's context then Close; two concurrent Closes); quick: default schedule, thorough: plus every single deviation, time-capped. distinct = distinct terminal outcomes (placement class / configuration, shutdown duration class, per-record promise results, application-visible call results)",
+		Rule:   "engine N. (1) Nine hand-written base workloads (idempotent producer to 2 brokers + unknown topic; direct consumer of a pre-loaded 2-partition topic; the same with MaxConcurrentFetches(1); cooperative group consumer with a second member joining; the same with BlockRebalanceOnPoll closed by CloseAllowingRebalance; the same with the eager range balancer; the same on the KIP-848 protocol; transactional producer ending mid-transaction; share-group consumer holding un-acked records) x three broker modes from the Close call on (responsive; every connection old and new stalled: accepts bytes, never answers; every connection dead and every dial refused). Close is called by a separate goroutine at EVERY decision point of the base execution (one deviation = release of the ARM selector after j of n skips: Close is called exactly when j request/response frames and application steps have fired, j=0..n, n >= length of the base execution, default = after the workload finished); with budget 2 additionally one deviation anywhere after the selector (another enabled frame first, timer tick first, connection killed before/after the broker handled a request, connection stalled). (2) Generated family XG (cost-0 choices, every combination executed): 21 client configurations (producer plain / linger / MaxBufferedRecords(1) / both; transactional; direct consumer with MaxConcurrentFetches -1, 0, 1; group consumer eager, cooperative, KIP-848, autocommit off, BlockRebalanceOnPoll, 2 s rebalance callbacks that commit, second member joining, first JoinGroup held 1 s by the coordinator with the application starting inside that join; share group) x every application script of length <= 2 (thorough <= 3) over the API alphabet of the configuration (Produce, Produce to an unknown topic, ProduceSync, Flush, EndTransaction commit/abort, PollFetches, CommitUncommittedOffsets, CommitOffsetsSync with a 200 ms context, ForceRebalance, AllowRebalance, ack+FlushAcks, think time) x the call during which the shutdown thread starts x the virtual delay before it shuts down (0 / 1.2 s; thorough 0 / 600 ms / 3 s) x cluster state applied at that moment (healthy, all connections stalled, all connections dead and dials refused, coordinator loading) x shutdown form (Close or CloseAllowingRebalance; LeaveGroup then Close; cancel the application's context then Close; two concurrent Closes); quick: default schedule, thorough: plus every single deviation, time-capped. distinct = distinct terminal outcomes (placement class / configuration, shutdown duration class, per-record promise results, application-visible call results)",
 		Assume: []string{"kfake is the broker", "synctests build of xsync (C31 covers the channel mutexes)", "goroutine micro-interleavings inside one event are the Go runtime's", "slow brokers are modelled as (a) all connections of the client stalled (x.StallClient) from the Close call on and (b) at k=2 one stalled connection at any request; partial slowness of several connections at different times needs k>2", "coordinator loading is modelled by kfake control functions answering COORDINATOR_LOAD_IN_PROGRESS to every coordinator-bound request from the shutdown moment on"},
 	})
 }
